@@ -203,6 +203,11 @@ func (i *interpreter) addHashApp(app *hashApp) {
 			return // the same application again (hash-consed): nothing new to relate
 		}
 	}
+	if !app.out.isConst() {
+		// idealisation: no input found by the program hashes to the all-zero digest (code that
+		// uses the zero hash as "not computed yet" marker relies on the same assumption)
+		i.axiom(tb.Not(tb.Eq(app.out, tb.BigConst(app.out.w, new(big.Int)))))
+	}
 	for _, o := range ps.hashApps {
 		if o.fam != app.fam {
 			continue
